@@ -38,6 +38,9 @@ HOSTS = {
     "xml": [("f.html", None), ("f.xml", None), ("f.md", None)],
     "xml-multi": [("f.html", None), ("f.xml", None), ("f.md", None)],
     "md-link": [("f.md", None), ("f.markdown", None)],
+    # HTML comments in a Markdown list item: the HTML block starts at a column > 1; one-line / multi-line comment / multi-line tag,
+    # content starting on the next line or on the comment's last line
+    "md-nested": [("f.md", None), ("f.markdown", None)],
 }
 LAYOUTS = list(HOSTS)
 CODES = ["keep-sorted", "keep-unique", "line-pattern", "line-count", "check-lua", "check-ai", "affects"]
@@ -154,6 +157,47 @@ class _W:
             if self.fname.endswith(".md"):
                 b.nl()
             return t, 0
+        if layout == "md-nested":
+            ensure_blank(b)
+            b.raw(self.bullet + " item %d" % r.randint(0, 99))
+            b.nl()
+            if r.random() < 0.5:
+                b.nl()
+            variant = r.choice(["one", "ml-after", "ml-before", "mltag"])
+            b.raw(ind)
+            b.open_comment(XML)
+            b.raw(" " + prose)
+            if variant == "ml-before":
+                b.nl()
+                b.raw(ind + "  intro")
+                b.nl()
+                b.raw(ind + "  ")
+            if variant == "mltag":
+                off, line, col = b.off, b.line, b.col
+                b.raw("<block")
+                for k, v in attrs:
+                    b.nl()
+                    b.raw(ind + "   " + (k if v is None else '%s="%s"' % (k, v)))
+                b.raw(">")
+                t = fbm.Tag(kind="start", off=off, line=line, col=col, attrs=amap, src=None, comment=b._cur, in_comment=True,
+                            end_off=b.off, end_line=b.line, end_col=b.col - 1)
+                b.tags.append(t)
+            else:
+                t = b.tag("start", src, amap)
+            if variant in ("ml-after", "ml-before"):
+                for _ in range(r.randint(1, 2)):
+                    b.nl()
+                    b.raw(ind + "  outro")
+                b.nl()
+                b.raw(ind)
+            else:
+                b.raw(" ")
+            b.close_comment()
+            self.variant = variant
+            if r.random() < 0.5:
+                return t, "inline"
+            b.nl()
+            return t, 0
         if layout == "md-link":
             ensure_blank(b)
             form = r.choice([MD_PAREN, MD_DQ])
@@ -186,6 +230,15 @@ class _W:
             b.tag("end", fbm.END_TAG)
             b.raw(" ")
             b.close_comment()
+            b.nl()
+        elif layout == "md-nested":
+            b.raw(ind)
+            b.open_comment(XML)
+            b.raw(" ")
+            b.tag("end", fbm.END_TAG)
+            b.raw(" ")
+            b.close_comment()
+            b.nl()
             b.nl()
         elif layout in ("xml", "xml-multi"):
             if self.fname.endswith(".md"):
@@ -253,6 +306,9 @@ def build(r, layout, fname, opener, eol):
         b.line_text("package main")
     w = _W(b, r, layout, fname, opener, indent)
     md = fname.endswith((".md", ".markdown"))
+    if layout == "md-nested":
+        w.bullet = r.choice(["-", "1.", "*"])
+        w.indent = len(w.bullet) + 1
     key_ok = not md   # in Markdown files content lines are paragraphs: keep them simple words
     diff_line = None
     codes = list(CODES)
@@ -261,7 +317,7 @@ def build(r, layout, fname, opener, eol):
     for ci, code in enumerate(codes):
         name = "k%d" % ci
         mb = r.choice(MB)
-        cind = " " * r.choice([0, 0, 2, 5]) if not md else ""
+        cind = " " * r.choice([0, 0, 2, 5]) if not md else " " * w.indent if layout == "md-nested" else ""
         where = r.choice(["first", "second", "last"])
         # every content line is a string-literal statement of the host language (lexically inert);
         # a line is (indentation, text before the key, key, text after the key, is_offending)
@@ -418,7 +474,7 @@ def run_job(job, ctx):
 
 def _lclass(layout):
     """Layout classes that matter for key positions."""
-    if layout in ("multi", "multi-star", "multi-2star", "mltag", "mltag-star", "xml-multi"):
+    if layout in ("multi", "multi-star", "multi-2star", "mltag", "mltag-star", "xml-multi", "md-nested"):
         return "comment-continues-after-tag"
     return layout
 
